@@ -39,6 +39,16 @@ type Op struct {
 	// INITIAL_WINDOW_SIZE=N}; the last value is the one in force (RFC 7540 6.5.3)
 	Rep   bool `json:"rep,omitempty"`
 	First int  `json:"first,omitempty"`
+	// send: Cnt > 1 writes that many identical frames back to back in one step (END_STREAM,
+	// if any, on the last); together they stay inside what the sender may assume
+	Cnt int `json:"cnt,omitempty"`
+}
+
+func (op Op) count() int {
+	if op.K == "send" && op.Cnt > 1 {
+		return op.Cnt
+	}
+	return 1
 }
 
 // Case is one relay session with one DATA sender.
@@ -128,7 +138,12 @@ func (r *ref) apply(op Op) {
 				r.set["end-stream-with-payload"] = true
 			}
 		}
-		r.queue[op.S] = append(r.queue[op.S], op.N)
+		for i := 0; i < op.count(); i++ {
+			r.queue[op.S] = append(r.queue[op.S], op.N)
+		}
+		if op.count() > 15 {
+			r.set["burst-of-frames"] = true
+		}
 		r.drain()
 		if s, byConn := r.blocked(); s >= 0 {
 			r.set["data-queued"] = true
@@ -157,6 +172,9 @@ func (r *ref) apply(op Op) {
 		r.drain()
 		if before >= 0 && len(r.queue[before]) < qlen {
 			r.set["released-by-window-update"] = true
+			if qlen-len(r.queue[before]) > 15 {
+				r.set["more-than-15-frames-released-at-once"] = true
+			}
 		}
 	case "iws":
 		before, _ := r.blocked()
@@ -187,6 +205,9 @@ func (r *ref) apply(op Op) {
 		r.drain()
 		if before >= 0 && len(r.queue[before]) < qlen {
 			r.set["released-by-settings"] = true
+			if qlen-len(r.queue[before]) > 15 {
+				r.set["more-than-15-frames-released-at-once"] = true
+			}
 		}
 	case "maxframe":
 		r.set["max-frame-size-raised"] = true
@@ -315,6 +336,17 @@ func genCase(t *rapid.T) Case {
 			if op.N+over > limit {
 				op.N = limit - over
 			}
+			if rapid.IntRange(0, 13).Draw(t, "burst") == 0 && limit >= 16 {
+				// many small frames in one step
+				op.Pad, op.N = -1, rapid.SampledFrom([]int{1, 5, 50}).Draw(t, "burst_size")
+				op.Cnt = rapid.SampledFrom([]int{16, 20, 64, 200}).Draw(t, "burst_count")
+				if op.Cnt*op.N > limit {
+					op.N = 1
+				}
+				if op.Cnt > limit {
+					op.Cnt = limit
+				}
+			}
 		case "wu":
 			op.S = rapid.IntRange(-1, c.Streams-1).Draw(t, "target")
 			op.N = rapid.SampledFrom([]int{1, 1, 2, 10, 100, 1000, 16383, 16384, 65535, 1 << 20}).Draw(t, "inc")
@@ -326,7 +358,16 @@ func genCase(t *rapid.T) Case {
 					op.S = -1
 					need = model.queue[held][0] - model.conn
 				}
-				switch rapid.IntRange(0, 3).Draw(t, "aim") {
+				all := -model.win[held]
+				for _, n := range model.queue[held] {
+					all += n
+				}
+				switch rapid.IntRange(0, 4).Draw(t, "aim") {
+				case 4:
+					op.N = need
+					if !byConn {
+						op.N = all // everything that is queued on the stream at once
+					}
 				case 0, 1:
 					op.N = need
 				case 2:
@@ -507,6 +548,8 @@ func shapeOf(c Case, upto int) string {
 	}
 	l := labels(Case{Reverse: c.Reverse, Lazy: c.Lazy, Streams: c.Streams, Ops: c.Ops[:upto]})
 	switch {
+	case l["more-than-15-frames-released-at-once"]:
+		return "after-more-than-15-frames-released-at-once"
 	case l["repeated-settings-identifier"]:
 		return "after-repeated-settings-identifier"
 	case l["grant-before-first-frame"]:
@@ -648,16 +691,18 @@ func runOnce(c Case, bound time.Duration) (kit.Verdict, bool) {
 				s.Server.WriteHeaders(h2kit.HeadersSpec{Stream: id, Pad: -1, Fields: []h2kit.Field{{N: ":status", V: "200"}}})
 				answered[op.S] = true
 			}
-			n, err := x.S.WriteData(id, kit.Bytes(uint64(i), op.N), op.Pad, op.End)
-			if err != nil {
-				x.fail(false, "C09/session/sender/connection-lost", "step %d: writing DATA: %v%s", i, err, x.diag())
-				return x.v, x.slow
-			}
-			x.accepted[op.S] = append(x.accepted[op.S], op.N)
-			x.total[op.S] += op.N
-			if n > 0 {
-				x.wantWU[id] += int64(n)
-				x.wantWU[0] += int64(n)
+			for k := 0; k < op.count(); k++ {
+				n, err := x.S.WriteData(id, kit.Bytes(uint64(i), op.N), op.Pad, op.End && k == op.count()-1)
+				if err != nil {
+					x.fail(false, "C09/session/sender/connection-lost", "step %d: writing DATA: %v%s", i, err, x.diag())
+					return x.v, x.slow
+				}
+				x.accepted[op.S] = append(x.accepted[op.S], op.N)
+				x.total[op.S] += op.N
+				if n > 0 {
+					x.wantWU[id] += int64(n)
+					x.wantWU[0] += int64(n)
+				}
 			}
 		case "wu":
 			id := uint32(0)
@@ -688,7 +733,7 @@ func runOnce(c Case, bound time.Duration) (kit.Verdict, bool) {
 		if !x.settle(between) {
 			return x.v, x.slow
 		}
-		x.check(i, fmt.Sprintf("%s s=%d n=%d pad=%d end=%v rep=%v first=%d", op.K, op.S, op.N, op.Pad, op.End, op.Rep, op.First))
+		x.check(i, fmt.Sprintf("%s s=%d n=%d pad=%d end=%v rep=%v first=%d cnt=%d", op.K, op.S, op.N, op.Pad, op.End, op.Rep, op.First, op.Cnt))
 		if x.gaveUp {
 			return x.v, x.slow
 		}
@@ -794,4 +839,35 @@ func TestEarlyGrant(t *testing.T) {
 	})
 }
 
-func TestReplay(t *testing.T) { kit.Replay(t, propHistories, propFrameSize, propEarlyGrant) }
+// propBurst: many frames become eligible in one step.
+var propBurst = &kit.Prop[Case]{
+	ID: "C09", Name: "burst-release",
+	Rule: "ALL combinations of: the receiver announces a zero initial window which the sender has not processed; the sender writes 16 / 50 / 200 DATA frames of 10 octets on one stream (all held by the relay); one step then makes all of them eligible - a stream WINDOW_UPDATE covering everything, or SETTINGS_INITIAL_WINDOW_SIZE=65 535 - either direction; oracle as for histories: with no further input everything must arrive; non-trivial = every case",
+	Run:  run, Classes: classes,
+}
+
+func TestBurstRelease(t *testing.T) {
+	if kit.Race() {
+		t.Skip("sequential enumeration")
+	}
+	propBurst.Enumerate(t, func(yield func(Case) bool) {
+		for _, cnt := range []int{16, 50, 200} {
+			for _, bySettings := range []bool{false, true} {
+				for _, rev := range []bool{false, true} {
+					release := Op{K: "wu", Pad: -1, S: 0, N: cnt * 10}
+					if bySettings {
+						release = Op{K: "iws", Pad: -1, N: 65535, Ack: true}
+					}
+					ops := []Op{{K: "iws", Pad: -1, N: 0}, {K: "send", Pad: -1, S: 0, N: 10, Cnt: cnt}, release}
+					if !yield(Case{Reverse: rev, Streams: 1, Ops: ops}) {
+						return
+					}
+				}
+			}
+		}
+	})
+}
+
+func TestReplay(t *testing.T) {
+	kit.Replay(t, propHistories, propFrameSize, propEarlyGrant, propBurst)
+}
